@@ -53,7 +53,8 @@ TReload ==
         /\ nextObj' = IF changed THEN nextObj + 1 ELSE nextObj
   /\ UNCHANGED <<file, reloadPc, staged, tx, txdef, cobj, nops, viol, sc>>
 
-ServerOf(d) == IF d = "A" THEN "b1" ELSE IF d = "B" THEN "b3" ELSE "none"
+\* A: [b1 primary, b4 replica]   B: [b3 primary]   R: [b1 replica, b4 primary]; the pool routes to its primary
+ServerOf(d) == IF d = "A" THEN "b1" ELSE IF d = "B" THEN "b3" ELSE IF d = "R" THEN "b4" ELSE "none"
 
 TTxStart ==
   /\ E.ev = "txstart"
